@@ -551,6 +551,8 @@ def step(S, r, m, clk, op, sess, path):
         sess.violation("invariant:" + name, {"subject": S["name"], "path": path + [op]}, v1)
         ok = False
     sess.count("operations_compared")
+    if len(path) >= 3:
+        sess.sample({"subject": S["name"], "operation_sequence": path + [op]})
     sess.evaluations += 1
     if _norm(v0) != _norm(v1) or (op[0] in ("put", "set") and rr not in (None, 0, (0, 0))):
         sess.count("state_changing_operations")
